@@ -1,4 +1,4 @@
-import LexVerif.Props.C01SlowMain
+import LexVerif.Props.C01SlowDomain
 /-!
 # Props.C01Final — C01 with Eisel–Lemire proved and the slow path modelled
 
@@ -19,7 +19,7 @@ namespace LexVerif.Props.C01Final
 open LexVerif.Spec LexVerif.Model LexVerif.Model.ParseFloatAlgo
 open LexVerif.Proof.RoundNE LexVerif.Proof.ExtRound LexVerif.Proof.Pipeline
 open LexVerif.Props.C01 (IsLemireFloat IsI64 Bracket)
-open LexVerif.Props.C01Main LexVerif.Props.C01SlowMain
+open LexVerif.Props.C01Main LexVerif.Props.C01SlowMain LexVerif.Props.C01SlowDomain LexVerif.Proof.Slow
 
 theorem hden_of {F : FTy} (hF : IsLemireFloat F) : F.C.denormalExponent = 1 - F.C.exponentBias := by
   rcases hF with h | h <;> subst h <;> decide
@@ -105,5 +105,20 @@ theorem C01_main_decided (hN : NumberExact) (feats : Features) (hcompact : feats
   rw [numberToFloat_decided slow hF ⟨feats, fmt, false⟩ (by omega) (by omega) (by omega) n hmany hre
     (fastContract_decimal hF ⟨feats, fmt, false⟩ hr n) hm hv (hvalid hv)]
   rw [(spec_forms hF ⟨feats, fmt, false⟩ (by omega) (by omega) (by omega) n hmany hre).2]
+
+/-! ## the `SlowDomain` conditions discharged (`Props.C01SlowDomain.slowDomain_of_exact`) -/
+
+/-- **C01 for one untruncated decimal `Number`, no condition on the estimate left**: exact `mantissa`/`exponent` words
+(`NumberExactAt`), plain digit slices (`PlainSlices`) and at most 19 significant digits — then the pipeline with the
+modelled slow path returns `litBits` of the digit content. Everything about Eisel–Lemire's estimate (normalisation,
+exponent range, bracket, finiteness of its round-down, both capacity guards of the big-integer code) is derived. -/
+theorem numberToFloat_exact {F : FTy} (hF : IsLemireFloat F) (c : Cfg) (hcompact : c.feats.compact = false)
+    (hr : c.mantissaRadix = 10) (hb : c.exponentBase = 10)
+    (n : Number) (hmany : n.manyDigits = false) (hx : NumberExactAt c n) (hs : PlainSlices c n)
+    (hfew : (sigBytes n.integer n.fraction).length ≤ 19) :
+    numberToFloat slowModel c F n false = some (litBits F.fmt c.mantissaRadix c.exponentBase (numberLit c n)) := by
+  apply numberToFloat_final hF c hcompact hr hb n hmany hx
+  intro fp hcf hinv _ _ _ _ p eb lay
+  exact slowDomain_of_exact hF lay c hr hb n hx hs hfew fp hcf hinv
 
 end LexVerif.Props.C01Final
